@@ -447,7 +447,8 @@ static void oversize_workload(Harness& H, bool thorough)
    for (int round = 0; round < 2; ++round)
       for (auto n : sizes) {
          // round 0: current pool nearly full -> the separate oversize path for n > 65536; round 1: as found
-         if (round == 0) H.fill_until_remaining(3 + (long long)H.rng.below(40), tag);
+         // (every fourth time the pool is used up to its very last granule, or to one or two granules, before the big word comes)
+         if (round == 0) { static int nth = 0; const int k = nth++ % 8; H.fill_until_remaining(k == 0 || k == 4 ? 0 : k == 2 ? 1 : k == 6 ? 2 : 3 + (long long)H.rng.below(40), tag); if (H.remaining() == 0) ctx().count("oversize_words_right_after_a_pool_was_used_up_exactly"); }
          long long before = H.pools(), rem = H.remaining();
          std::string s = H.unique_bytes(n, ++tag);
          H.intern(s, "oversize");
@@ -493,7 +494,7 @@ static void body(Ctx& C)
           "all earlier Strings are re-read (address, length, bytes) and storage intervals [header,end) are checked pairwise disjoint");
    C.assume("storage interval of a dynamic word = 8-byte length header immediately before characters() (pinned layout), used only for the overlap check");
    for (auto k : { "pool_rollovers", "oversize_own_pool", "oversize_fitted_current_pool", "boundary_requests_rolled_over", "boundary_requests_fitted",
-                   "equal_hash_chains_verified", "equal_hash_prefix_chains_verified", "words_given_an_equal_hash_neighbour", "words_given_an_equal_hash_and_length_neighbour", "re_interned", "rechecks", "interval_checks", "reserved_words_checked", "interned:reserved-near-miss", "first_pool_filled_exactly", "views_into_pool_storage", "sources_at_odd_alignment", "digest_twins_interned", "words_interned_during_static_initialisation" }) C.need(k);
+                   "equal_hash_chains_verified", "equal_hash_prefix_chains_verified", "words_given_an_equal_hash_neighbour", "words_given_an_equal_hash_and_length_neighbour", "re_interned", "rechecks", "interval_checks", "reserved_words_checked", "interned:reserved-near-miss", "first_pool_filled_exactly", "views_into_pool_storage", "sources_at_odd_alignment", "digest_twins_interned", "oversize_words_right_after_a_pool_was_used_up_exactly", "words_interned_during_static_initialisation" }) C.need(k);
    {  // what the early probe saw
       const EarlyWords& E = early_words;
       C.count("words_interned_during_static_initialisation", E.ran ? (long long)std::size(reserved_words) + 6 : 0);
